@@ -4,6 +4,7 @@ import MpireModel.Drive.Proto
 import MpireModel.Drive.Dispatch
 import MpireModel.Drive.Misc
 import MpireModel.Drive.Apply
+import MpireModel.Drive.Shutdown
 /- One line in, one line out. -/
 namespace Mpire.Drive
 
@@ -37,6 +38,8 @@ def handle (line : String) : String :=
       | "handover" => handleHandover fs
       | "kill"    => handleKill fs
       | "aproto"  => handleAProto fs
+      | "tworker" => handleTWorker fs
+      | "hstop"   => handleHStop fs
       | _ => none
     r.getD "bad-op"
 
